@@ -76,6 +76,7 @@ pub enum Dec {
     LossyAfterEscString,      // ["k\tv",lit] as (String, String), lossy
     LossyAfterRepairedString, // ["<0xff>",lit] as (String, String), lossy
     LossyAfterEscStreamValue, // 0 ["k\tv",lit] second stream document as Value, lossy
+    LossyMiddleStr,           // ["r<0xff>s",lit,"t<0xfe>"] as (String, &str, String), lossy: an accepted invalid literal before, another invalid byte behind
     LossyStreamThenNumber,    // lit 7: the literal is the first stream document (repaired in a copy), the next document must still be found
 }
 
@@ -113,6 +114,7 @@ pub const LOSSY: &[Dec] = &[
     Dec::LossyAfterRepairedString,
     Dec::LossyAfterEscStreamValue,
     Dec::LossyStreamThenNumber,
+    Dec::LossyMiddleStr,
 ];
 
 fn e<T>(r: sonic_rs::Result<T>) -> Result<T, Obs> {
@@ -163,6 +165,11 @@ pub fn wrap(dec: Dec, lit: &[u8], out: &mut Vec<u8>) {
         Dec::LossyStreamThenNumber => {
             out.extend_from_slice(lit);
             out.extend_from_slice(b" 7");
+        }
+        Dec::LossyMiddleStr => {
+            out.extend_from_slice(b"[\"r\xffs\",");
+            out.extend_from_slice(lit);
+            out.extend_from_slice(b",\"t\xfe\"]");
         }
         Dec::AfterEscString | Dec::LossyAfterEscString => {
             out.extend_from_slice(b"[\"k\\tv\",");
@@ -318,6 +325,14 @@ pub fn decode(dec: Dec, text: &[u8]) -> Option<Obs> {
                 let v = e(st.next().ok_or(Obs::Err("stream ended".into()))?)?;
                 own(v.as_str().ok_or(Obs::Err("not a string".into()))?)
             }
+            Dec::LossyMiddleStr => {
+                let mut de = Deserializer::from_slice(text).utf8_lossy();
+                let v: (String, &str, String) = e(de.deserialize())?;
+                if v.0 != "r\u{fffd}s" || v.2 != "t\u{fffd}" {
+                    return Err(Obs::Err(format!("neighbours decoded as {:?} / {:?}", v.0, v.2)));
+                }
+                Obs::Ok { s: v.1.to_string(), borrowed: Some(is_borrowed_from(v.1, text)) }
+            }
             Dec::LossyStreamThenNumber => {
                 let mut st = Deserializer::from_slice(text).utf8_lossy().into_stream::<Value>();
                 let v = e(st.next().ok_or(Obs::Err("stream ended".into()))?)?;
@@ -409,6 +424,7 @@ pub fn expected(dec: Dec, lit: &[u8]) -> Option<Result<(String, Option<bool>), r
         | Dec::LossyAfterRepairedString
         | Dec::DeValue
         | Dec::StreamFirstValue
+        | Dec::LossyMiddleStr
         | Dec::LossyStreamThenNumber => {
             refjson::parse_value_at(&text, 0, mode)
         }
@@ -476,6 +492,7 @@ pub fn expected(dec: Dec, lit: &[u8]) -> Option<Result<(String, Option<bool>), r
                     | Dec::LossyAfterEscString
                     | Dec::LossyAfterRepairedString
                     | Dec::LossyAfterEscStreamValue
+                    | Dec::LossyMiddleStr
             ) =>
         {
             &root
@@ -507,6 +524,12 @@ pub fn expected(dec: Dec, lit: &[u8]) -> Option<Result<(String, Option<bool>), r
             }
             &a[1]
         }
+        (Kind::Arr(a), Dec::LossyMiddleStr) => {
+            if a.len() != 3 {
+                return None;
+            }
+            &a[1]
+        }
         _ => return Some(Err(refjson::Reason::Unexpected)),
     };
     let Kind::Str { val, has_esc } = &node.kind else {
@@ -521,6 +544,13 @@ pub fn expected(dec: Dec, lit: &[u8]) -> Option<Result<(String, Option<bool>), r
             Some(true)
         }
         Dec::FieldCow => Some(!*has_esc),
+        Dec::LossyMiddleStr => {
+            // a &str target can only hold a literal that needs neither decoding nor repair
+            if *has_esc || std::str::from_utf8(node.text(&text)).is_err() {
+                return None;
+            }
+            Some(true)
+        }
         _ => None,
     };
     Some(Ok((val.clone(), borrowed)))
